@@ -77,9 +77,25 @@ GROUPS = {
             Fn("C14", "mesa/experimental/devs/eventlist.py", "EventList.is_empty", "is_empty", {}, self_rec="EventList"),
         ],
     },
+    "Steps": {
+        "namespace": "Mesa.Steps.GenFn",
+        "path": "MesaModel/Gen/FnSteps.lean",
+        "recs": [Rec("ModelRec", {"steps": "Int"})],
+        "fns": [
+            # `self._user_step(*args, **kwargs)` is the effect "the user's step runs and sees self.steps = <value>"
+            Fn("C05", "mesa/model.py", "Model._wrapped_step", "wrapped_step", {}, self_rec="ModelRec",
+               state={"self.steps": "Int"}, snapshot={"self._user_step": ["self.steps"]}, ignore_calls=("_mesa_logger.info",)),
+        ],
+    },
 }
 
 REGISTRY = {
+    "C05": {
+        "groups": ["Steps"],
+        "functions": ["Model._wrapped_step"],
+        "lean_modules": ["MesaModel.Proofs.XlateSteps"],
+        "theorems": ["Mesa.Steps." + t for t in ("C05_gen_wrapped_step_eq_model", "C05_increment_before_user_code_generated")],
+    },
     "C08": {
         "groups": ["Legacy"],
         "functions": ["_Grid.out_of_bounds", "_Grid.torus_adj"],
